@@ -71,11 +71,15 @@ define_precedence! {
         Modulo: modulo,
     }
 
-    // Precedence 5 (highest)
+    // Precedence 5: power (right-associative)
     precedence 5, Right => {
         Power: power,
     }
-    precedence 5, Left => {
+
+    // Precedence 6 (highest): coalesce. The Pratt parser has always bound `??` tighter
+    // than `^` (it is registered after it); giving it its own level makes
+    // `operator_info` - and therefore the printers - agree with the parser.
+    precedence 6, Left => {
         Coalesce: coalesce,
     }
 }
